@@ -403,7 +403,8 @@ pub open spec fn parse_item(b: Seq<u8>) -> Option<(u64, Seq<u8>, int)> {
     if b.len() < 12 { None } else {
         let pos = spec_u64_from_le_bytes(b.subrange(0, 8));
         let len = spec_u32_from_le_bytes(b.subrange(8, 12)) as int;
-        if b.len() - 12 < len { None } else { Some((pos, b.subrange(12, 12 + len), 12 + len)) }
+        // the position after a record must be representable
+        if pos == u64::MAX || b.len() - 12 < len { None } else { Some((pos, b.subrange(12, 12 + len), 12 + len)) }
     }
 }
 
@@ -433,6 +434,8 @@ pub open spec fn parse_entry(b: Seq<u8>) -> Option<EntryView> {
             let body = rest.skip(qlen);
             if !vstd::utf8::valid_utf8(qbytes) { None }
             else if b[0] == 4 && parse_items(body) is None { None }
+            // a queue cannot be truncated past the last representable position
+            else if b[0] == 1 && position == u64::MAX { None }
             else { Some(EntryView { kind: b[0], queue: vstd::utf8::decode_utf8(qbytes), position, body: if b[0] == 4 { body } else { Seq::empty() } }) }
         }
     }
@@ -448,7 +451,7 @@ pub open spec fn log_ack(v: LogView, k: String, p: u64) -> LogView {
 // ------------------------------------------------------------------------------------ codec round trip (O-C01-codec)
 /// L-codec-item: one serialized item parses back, consuming exactly its bytes
 pub proof fn lemma_parse_ser_item(pos: u64, payload: Seq<u8>, rest: Seq<u8>)
-    requires payload.len() <= u32::MAX,
+    requires payload.len() <= u32::MAX, pos < u64::MAX,
     ensures parse_item(ser_item(pos, payload) + rest) == Some((pos, payload, 12 + payload.len() as int)),
 {
     lemma_auto_spec_u64_to_from_le_bytes();
@@ -460,7 +463,7 @@ pub proof fn lemma_parse_ser_item(pos: u64, payload: Seq<u8>, rest: Seq<u8>)
 }
 
 pub open spec fn items_ok(items: Seq<(u64, Seq<u8>)>) -> bool {
-    forall|i: int| 0 <= i < items.len() ==> (#[trigger] items[i]).1.len() <= u32::MAX
+    forall|i: int| 0 <= i < items.len() ==> (#[trigger] items[i]).1.len() <= u32::MAX && items[i].0 < u64::MAX
 }
 
 /// L-codec-items: a serialized batch parses back to exactly the batch (any number of records, any payloads)
@@ -478,7 +481,7 @@ pub proof fn lemma_parse_ser_items(items: Seq<(u64, Seq<u8>)>)
         let used = 12 + items[0].1.len() as int;
         assert(b.skip(used) =~= rest);
         assert(items_ok(items.skip(1))) by {
-            assert forall|i: int| 0 <= i < items.skip(1).len() implies (#[trigger] items.skip(1)[i]).1.len() <= u32::MAX by {
+            assert forall|i: int| 0 <= i < items.skip(1).len() implies (#[trigger] items.skip(1)[i]).1.len() <= u32::MAX && items.skip(1)[i].0 < u64::MAX by {
                 assert(items.skip(1)[i] == items[i + 1]);
             }
         }
@@ -493,6 +496,7 @@ pub open spec fn entry_ok(e: EntryView) -> bool {
     &&& name_bytes(e.queue).len() <= 65535
     &&& (e.kind == 4 ==> parse_items(e.body) is Some)
     &&& (e.kind != 4 ==> e.body.len() == 0)
+    &&& (e.kind == 1 ==> e.position < u64::MAX)
 }
 
 /// L-codec-entry: every well-formed entry (all four kinds, any name up to 65535 bytes, any position,
